@@ -100,9 +100,57 @@ def l_set_at(t, z, k, x):
     return l_mk(t, l_len(t, z), z3.Store(l_arr(t, z), k, x))
 
 
+_IX_TYPES = {}     # type key -> (type, index function)
+_IX_EMITTED = set()
+
+
+def ix_fn(t):
+    ent = _IX_TYPES.get(t.key)
+    if ent is None:
+        f = z3.Function('list_ix_' + str(t.sort()), t.sort(), t.elem.sort(), z3.IntSort())
+        _IX_TYPES[t.key] = (t, f)
+        ent = _IX_TYPES[t.key]
+    return ent[1]
+
+
 def l_contains(t, z, x):
-    i = z3.Int('lx_i')
-    return z3.Exists([i], z3.And(i >= 0, i < l_len(t, z), l_get(t, z, i) == x))
+    '''Membership through a witness function instead of an existential: ix(l, x) is the
+    position of an occurrence of x in l whenever there is one (choice function; its axiom is
+    contains_axioms()).  A hypothesis `x in l` then names a ground index the solver can use,
+    and a goal `x in l` is proved by exhibiting any index holding x.'''
+    k = ix_fn(t)(z, x)
+    return z3.And(k >= 0, k < l_len(t, z), l_get(t, z, k) == x)
+
+
+def reset_axioms():
+    _IX_EMITTED.clear()
+
+
+def pending_axioms():
+    '''Choice-function axioms for the list types used since the last call.'''
+    out = []
+    for key, (t, f) in list(_IX_TYPES.items()):
+        if key in _IX_EMITTED:
+            continue
+        _IX_EMITTED.add(key)
+        l = z3.Const('ax_l_' + str(t.sort()), t.sort())
+        x = z3.Const('ax_x_' + str(t.sort()), t.elem.sort())
+        i = z3.Int('ax_i')
+        sel = l_get(t, l, i)
+        k = f(l, x)
+        out.append(z3.ForAll([l, x, i], z3.Implies(z3.And(i >= 0, i < l_len(t, l), sel == x),
+                                                   z3.And(k >= 0, k < l_len(t, l), l_get(t, l, k) == x)),
+                             patterns=[z3.MultiPattern(sel, k)]))
+    return out
+
+
+def shift_lemma_remove(t, old, new, k):
+    '''new = old without position k: every other element keeps its value at the shifted position
+    (true by construction; stated so that the solver sees the shifted select terms).'''
+    j = z3.Int('sl_j')
+    sel = l_get(t, old, j)
+    return forall([j], z3.Implies(z3.And(j >= 0, j < l_len(t, old), j != k),
+                                  l_get(t, new, z3.If(j < k, j, j - 1)) == sel), patterns=[sel])
 
 
 def canon(t, z):
